@@ -12,7 +12,9 @@ randomness.
 """
 import numpy as np
 
-from .common import HarnessError
+from .common import HarnessError, RunawayExecution
+
+MAX_POINTS = 20000  # answers per execution; bounded instances need a few hundred at most
 
 
 class Point:
@@ -52,6 +54,8 @@ class ScriptedGenerator(np.random.Generator):
 
     # ---- bookkeeping
     def _take(self, n, kind):
+        if self.pos >= MAX_POINTS:
+            raise RunawayExecution(f"{self.pos} requests to the random generator in one execution")
         if self.pos < len(self.script):
             c = self.script[self.pos]
             if not (0 <= c < n):
